@@ -3,7 +3,9 @@ oracle.  The thread (launch_rdp_thread of src/bin/mstsc-rs.rs) runs for real, ov
 inside harness-gui (see harness-gui/src/guiloop.rs for the case-line grammar):
 
   gui <seed> <pre> <gw> <dict> <step>...     steps: W:piece+piece (one TLS record) | P:ms | I:ms:expect | E:cn|fin|rst | S | J:ms
-  out: i:<events>:<state> ... end:<state> ev=<ids> rel=<0|1>     state = exited | blocked | spin | ? | late
+                                             | GL | GW | GU | GX  (the GUI thread, scripted: lock / try_write / unlock / shutdown)
+  out: i:<events>:<state> ... g:ok|g:wait ... end:<state> ev=<ids> rel=<0|1> in=<n[+u][+c]|*>
+       state = exited | blocked | spin | ? | late
 
 PDU names: B<id>.<id>.. bitmap update carrying these event ids; O pointer update (no event); U disconnect
 ultimatum; X undecodable PDU (Error::RdpError); Y undecodable PDU (Error::Io); DA SYNC COOP GRANTED FONTMAP
@@ -23,9 +25,15 @@ RULE = ("scenario = sequence of 1-6 PDUs (bitmap updates with 0-3 events, pointe
         "split; TLS close_notify; FIN without alert; RST; connection closed in the middle of a PDU; none) x moment of the "
         "end (right after the last write, after the thread went back to select, while it is blocked inside a read) x "
         "protocol point (thread started before / inside / after activation) x a concurrent thread sending input through "
-        "the shared client (seeded delays) or not.  Observed: events forwarded at every idle probe (server silent) and "
+        "the shared client (seeded delays, up to 40 back-to-back writes) or not x the GUI thread's critical section placed "
+        "step by step by the script (GL lock / GW try_write / GU unlock / GX shutdown, executed by a helper thread on the "
+        "shared client): the GUI holds the mutex while data arrives (any packing), while the session ends (each end kind), "
+        "while both happen; the GUI's lock() blocks on a thread sitting in a half-received PDU and the rest arrives / the "
+        "connection ends; the GUI clears `sync` (in select, inside a read, while the thread waits for the mutex) and runs "
+        "main_gui_loop's shutdown, the server stays silent / sends more / closes.  Observed: events forwarded at every idle probe (server silent) and "
         "at the end, thread state by its CPU clock (blocked / spinning / finished), join within the deadline, the shared "
-        "client released.  Non-trivial = the thread forwarded events or ended; distinct = distinct (packing class, end "
+        "client released, whether each scripted GUI step completed or had to wait for the mutex, the input PDUs / "
+        "ultimatum / close_notify the server has seen from the client.  Non-trivial = the thread forwarded events or ended; distinct = distinct (packing class, end "
         "kind, placement, writer, outcome).")
 TRUSTED_BASE = ["Coq 8.16.1 kernel",
                 "hand-written model coq/GuiLoop.v (the loop as repaired) tied to /repo by this correspondence run",
@@ -33,12 +41,23 @@ TRUSTED_BASE = ["Coq 8.16.1 kernel",
                 "harness-gui/src/guiloop.rs: in-process native-tls server over loopback TCP, thread CPU clock as spin detector, "
                 "deadlines (3 s join + 5 s grace, 2 s per idle probe; late / inconclusive measurements are retried and then reported, never passed)",
                 "the kernel's select(2)/TCP and OpenSSL's record processing (no read-ahead: SSL_pending covers exactly the current record)",
+                "std::sync::Mutex and the OS scheduler: the fairness hypothesis of the theorems (the thread gets fuel_of turns at moments when "
+                "the GUI does not hold the mutex) is ASSUMED of them; the scripted GUI steps (g:ok = completed, g:wait = still blocked after "
+                "300 ms with the mutex demonstrably held by somebody else) make the model's mutex states observable on the real threads",
                 "abstraction of plaintext bytes to tokens (a PDU = fragments + a final token) and of RdpClient::read to "
                 "'consumes one PDU, returns Ok / Err of a class' (decoding itself is C06/C10)"]
-ASSUMPTIONS = ["PARTIAL BY NATURE: the model cannot exhibit real scheduler interleavings, mutex fairness between the GUI and "
-               "receive threads, select(2) corner cases (EINTR makes wait_for_fd return false and the thread end), TCP "
-               "segmentation inside a TLS record, or OpenSSL's actual record coalescing; those are only sampled by the seeded runs",
-               "the thread is not told about `sync` being cleared until the socket becomes readable (not part of the property)"]
+ASSUMPTIONS = ["PARTIAL BY NATURE: the mutex and the GUI thread are in the model (every interleaving of lock / write / unlock / stop with "
+               "the thread's steps), but what the real scheduler and std::sync::Mutex guarantee is not: liveness theorems assume the stated "
+               "fairness (the thread gets fuel_of turns while the GUI does not hold the mutex); not modelled: mutex poisoning (a panic inside "
+               "read), a full socket send buffer (a server that stops reading blocks try_write inside the mutex), try_write before the end of "
+               "the activation sequence (InvalidAutomata, nothing written), select(2) corner cases (EINTR makes wait_for_fd return false and "
+               "the thread end), TCP segmentation inside a TLS record, OpenSSL's actual record coalescing and its behaviour when read and "
+               "shutdown meet; those are only sampled by the seeded runs",
+               "OBSERVATION, outside the statement (C20_stop_needs_wakeup, reproduced by the `S GL GX GU` scenarios): the thread is not told "
+               "about `sync` being cleared until the socket becomes readable; main_gui_loop's shutdown() does not make it readable, so the "
+               "process exit waits for the server's reaction to the client's disconnect ultimatum",
+               "OBSERVATION (C20_no_deadlock, second clause, reproduced by the `g:wait` scenarios): while the thread sits in a half-received "
+               "PDU it holds the mutex, and the GUI loop's lock() -- hence the window -- is frozen until the server completes the PDU"]
 
 ACT = ["DA", "SYNC", "COOP", "GRANTED", "FONTMAP"]
 
@@ -214,7 +233,114 @@ def gen_cases(tier, rng):
         add(mk(["W:" + "+".join(pdus + ["U"]), "J:3000"]))
         add(mk(["W:" + "+".join(pdus), "I:100:%d" % n, "E:cn", "J:3000"]))
         add(mk(["W:" + "+".join(pdus[:n // 2]), "W:" + "+".join(pdus[n // 2:]), "I:100:%d" % n, "W:U", "J:3000"]))
+    # 9. the GUI thread's critical sections, placed step by step (GL lock / GW try_write / GU unlock / GX shutdown).
+    #    Every probe that the script takes while the outcome depends on a race is avoided: a GL is issued only after a
+    #    pause or probe has let the thread come to rest, so that who holds the mutex is determined.
+    for line in gui_scenarios(tier, rng): add(line)
     return cases
+
+def ids_of(pdus): return nevents(pdus)
+
+def gui_scenarios(tier, rng):
+    quick = tier == "quick"
+    out = []
+    def fresh(first, k):
+        """k bitmap PDUs with fresh event ids starting at `first`"""
+        pd = []; nid = first
+        for _ in range(k):
+            c = rng.choice([1, 1, 2]); pd.append("B" + ".".join(str(nid + j) for j in range(c))); nid += c
+        return pd, nid
+    def writes(pdus, packing):
+        return ["W:" + "+".join(r) for r in pack(packing, pdus, rng)]
+    packs = PACKINGS if not quick else ["one", "all", "straddle", "split2", "random"]
+    ends = ["U", "X", "Y", "cn", "fin", "rst", "none"]
+    def finish(end, n, steps, held=False):
+        """the session's end after the last probe (the GUI not holding the mutex)"""
+        if end in ("U", "X", "Y"): steps += ["W:" + end, "J:3000"]
+        elif end in ("cn", "fin", "rst"): steps += ["E:" + end, "J:3000"]
+        else: steps += ["J:150"]
+        return steps
+    # (a) the GUI holds the mutex while data arrives: nothing is forwarded until it lets go, then everything is
+    for packing in packs:
+        for end in (ends if not quick else ["U", "fin", "none", rng.choice(["X", "Y", "cn", "rst"])]):
+            a, nid = fresh(1, rng.randrange(0, 3)); b, nid = fresh(nid, rng.randrange(1, 4))
+            na, nb = nevents(a), nevents(b)
+            steps = (writes(a, "one") if a else []) + ["I:40:%d" % na, "GL"] + ["GW"] * rng.randrange(0, 3) + writes(b, packing)
+            steps += ["I:50:%d" % na] + ["GW"] * rng.randrange(0, 2) + ["GU", "I:40:%d" % (na + nb)]
+            out.append(mk(finish(end, na + nb, steps), seed=rng.randrange(1 << 30)))
+    # (b) the GUI holds the mutex while the session ends: the thread cannot stop before the GUI lets go, and must then
+    for end in ["U", "X", "Y", "cn", "fin", "rst"]:
+        for with_data in (False, True):
+            for rep in range(1 if quick else 4):
+                a, nid = fresh(1, rng.randrange(0, 3)); na = nevents(a)
+                b, nid = (fresh(nid, rng.randrange(1, 3)) if with_data and end != "rst" else ([], nid)); nb = nevents(b)
+                steps = (writes(a, "one") if a else []) + ["I:40:%d" % na, "GL"] + ["GW"] * rng.randrange(0, 2)
+                if end in ("U", "X", "Y"):
+                    pk = rng.choice(["one", "all", "straddle"]) if b else "one"
+                    recs = pack(pk, b, rng) if b else []
+                    if recs and rng.random() < 0.5: recs[-1] = recs[-1] + [end]       # coalesced behind the data
+                    else: recs.append([end])
+                    steps += ["W:" + "+".join(r) for r in recs]
+                else:
+                    steps += writes(b, rng.choice(["one", "all", "split2"])) if b else []
+                    steps += ["E:" + end]
+                steps += ["I:50:%d" % na, "GU", "J:3000"]
+                out.append(mk(steps, seed=rng.randrange(1 << 30)))
+    # (c) the GUI's lock() blocks on a thread that sits in a half-received PDU (mutex held inside read); then the rest
+    #     arrives / the connection ends
+    for how in ["rest", "rest+more", "cn", "fin", "rst", "U-after-rest"]:
+        for rep in range(1 if quick else 4):
+            a, nid = fresh(1, rng.randrange(0, 2)); na = nevents(a)
+            n = rng.choice([2, 3])
+            steps = (writes(a, "one") if a else []) + ["I:40:%d" % na, "W:B%d/0/%d" % (nid, n), "I:40:%d" % na, "GL"]
+            rest = ["W:B%d/%d/%d" % (nid, i, n) for i in range(1, n)]
+            if how == "rest": steps += rest + ["I:40:%d" % (na + 1), "GW", "GU", "I:30:%d" % (na + 1), "J:150"]
+            elif how == "rest+more":
+                # more data behind the rest of the PDU: thread and GUI race for the mutex after the first PDU when the records
+                # are separate; in ONE record the thread keeps the mutex until the TLS layer is empty (drain loop)
+                steps += ["W:B%d/%d/%d+B%d" % (nid, n - 1, n, nid + 1)] if n == 2 else rest[:-1] + [rest[-1][0:] + "+B%d" % (nid + 1)]
+                steps += ["I:40:%d" % (na + 2), "GU", "J:150"]
+            elif how == "U-after-rest": steps += rest[:-1] + [rest[-1] + "+U", "P:30", "GU", "J:3000"]
+            else: steps += ["E:" + how, "P:30", "GW", "GU", "J:3000"]
+            out.append(mk(steps, seed=rng.randrange(1 << 30)))
+    # (d) input written between and during bursts: the server sees every input PDU, the events are untouched
+    for rep in range(6 if quick else 60):
+        steps = []; nid = 1; n = 0; held = False
+        for b in range(rng.randrange(2, 4)):
+            pd, nid2 = fresh(nid, rng.randrange(1, 3)); k = nevents(pd)
+            steps += ["GL"] + ["GW"] * rng.randrange(1, 4)
+            if rng.random() < 0.5:
+                steps += writes(pd, rng.choice(packs)) + ["P:20", "GU"]
+            else:
+                steps += ["GU"] + writes(pd, rng.choice(packs))
+            n += k; nid = nid2
+            steps += ["I:40:%d" % n]
+        out.append(mk(finish(rng.choice(["U", "cn", "none"]), n, steps), seed=rng.randrange(1 << 30)))
+    # (e) the GUI stops the thread (clears `sync`), at each moment of the cycle, with and without main_gui_loop's shutdown;
+    #     then the server stays silent (thread stays in select: observation), sends more (not forwarded) or closes
+    for moment in ["select", "midpdu", "atlock"]:
+        for shut in (False, True):
+            for after in ["silent", "more", "cn", "fin", "rst", "U"]:
+                if quick and rng.random() < 0.4 and not (moment == "select" and shut): continue
+                steps = ["W:B1", "I:40:1"]; n = 1
+                if moment == "select": steps += ["S"]
+                elif moment == "midpdu": steps += ["W:B2/0/2", "I:40:1", "S", "W:B2/1/2+B3", "I:40:3"]; n = 3
+                else: steps += ["GL", "W:B2", "P:40", "S", "GU", "I:40:2"]; n = 2
+                if shut: steps += ["GL", "GX", "GU"]
+                steps += ["I:60:%d" % n]
+                if after == "silent": steps += ["J:300"]
+                elif after == "more": steps += ["W:B9", "J:3000"]
+                elif after == "U": steps += ["W:B9+U", "J:3000"]
+                else: steps += ["E:" + after, "J:3000"]
+                out.append(mk(steps, seed=rng.randrange(1 << 30)))
+    # (f) a hammering writer: many back-to-back lock / try_write / unlock cycles while bursts arrive and the session ends
+    for rep in range(12 if quick else 150):
+        pdus = rand_pdus(rng)
+        end = rng.choice(ENDS)
+        place = rng.choice(["own", "coalesced", "split"] if end in ("U", "X", "Y") else ["idle", "now", "midpdu"])
+        out.append(scenario(pdus, rng.choice(PACKINGS), end, place, rng.random() < 0.5, rng,
+                            gw="%d:%d" % (rng.choice([20, 40]), rng.choice([0, 0, 1])), seed=rng.randrange(1 << 30)))
+    return out
 
 # ------------------------------------------------------------------------------------------ oracle
 
@@ -225,8 +351,12 @@ def parse_script(line):
 def reference(steps):
     """property-level expectation, computed from the script alone: events that must have been forwarded at every
     probe and at the end, and whether the session has ended.  A PDU counts once its last piece was written while
-    the connection was open; nothing counts after the first failing PDU or after the GUI stopped."""
+    the connection was open; nothing counts after the first failing PDU or after the GUI stopped.
+    While the GUI thread asks for / holds the client mutex (between a GL and its GU) the receive thread cannot be
+    expected to forward anything new: a probe taken then must show at least what was due when the GL was issued
+    (`lo`) and at most everything sent (`hi`); the property is about what the thread does when it can run."""
     ev = []; probes = []; ended = False; closed = False; stopped = False; failed = False; rst = False
+    held = False; due = 0; inputs = 0
     for s in steps:
         k, _, rest = s.partition(":")
         if k == "W" and not closed:
@@ -237,11 +367,15 @@ def reference(steps):
                 n = f[0]
                 if n[0] in "UXY": failed = True; ended = True
                 elif n[0] == "B" and len(n) > 1 and not stopped: ev += [int(x) for x in n[1:].split(".")]
-        elif k == "I": probes.append(len(ev))
+        elif k == "I": probes.append((len(ev) if not held else due, len(ev)))
         elif k == "E":
             if not closed: closed = True; ended = True; rst = rst or rest == "rst"
         elif k == "S": stopped = True
-    return dict(ev=ev, probes=probes, ended=ended, stopped=stopped, rst=rst)
+        elif k == "GL":
+            if not held: held = True; due = len(ev)
+        elif k == "GU": held = False
+        elif k == "GW": inputs += 1
+    return dict(ev=ev, probes=probes, ended=ended, stopped=stopped, rst=rst, held=held, inputs=inputs)
 
 def parse_out(out):
     head = out.split(" #")[0].split()
@@ -265,25 +399,28 @@ def kind_of(line):
             if p[0] in "UXY" and end == "none": end = p[0]
     return ("split" if split else "") + ("coal" if coal else "") or "plain", end
 
+def is_result(out): return out.startswith("i:") or out.startswith("end:") or out.startswith("g:")
+
 def classify(line, out):
-    if not out or not out.startswith("i:") and not out.startswith("end:"): return out.split()[0] if out else "none"
+    if not out or not is_result(out): return out.split()[0] if out else "none"
     probes, end, ev, rel = parse_out(out)
     inc = any(st in ("?", "late") for _, st in probes) or end in ("?", "late")
     return ("inconclusive-" if inc else "") + "end:" + str(end)
 
 def shape(line):
     sc = parse_script(line)
-    return kind_of(line) + (sc["pre"], sc["gw"] != "0:0", len([s for s in sc["steps"] if s.startswith("W:")]))
+    g = "".join(s[1] for s in sc["steps"] if s[0] == "G")
+    return kind_of(line) + (sc["pre"], sc["gw"] != "0:0", len([s for s in sc["steps"] if s.startswith("W:")]), g[:6], "S" in sc["steps"])
 
 def nontrivial(line, out):
-    if not (out.startswith("i:") or out.startswith("end:")): return False
+    if not is_result(out): return False
     probes, end, ev, rel = parse_out(out)
     return bool(ev) or end == "exited"
 
 def oracle(line, out, expect):
     """judges only what the property states: the thread keeps up (no waiting for further traffic), stops with the
     session (whatever the error kind), forwards what it received in order, never spins"""
-    if not (out.startswith("i:") or out.startswith("end:")):
+    if not is_result(out):
         return "scenario could not be run / crashed: " + out[:80]
     probes, end, ev, rel = parse_out(out)
     ref = reference(parse_script(line)["steps"])
@@ -292,11 +429,14 @@ def oracle(line, out, expect):
     if "?" in states or "late" in states:
         return "inconclusive measurement even after retries (load?) -- not a pass: " + out[:160]
     if ref["stopped"]: return None
-    for i, ((n, st), want) in enumerate(zip(probes, ref["probes"])):
-        if n != want:
-            return "idle probe %d: %d of the %d events sent so far were forwarded while the server was silent" % (i, n, want)
+    for i, ((n, st), (lo, hi)) in enumerate(zip(probes, ref["probes"])):
+        if n < lo:
+            return "idle probe %d: %d of the %d events sent so far were forwarded while the server was silent" % (i, n, lo)
+        if n > hi:
+            return "idle probe %d: %d events forwarded, only %d were sent" % (i, n, hi)
         if st == "exited" and not ref["ended"]:
             return "the thread ended although the session is alive"
+    if ref["held"]: return None          # the script ends with the GUI thread holding the mutex: the thread cannot move
     if ref["ended"]:
         if end != "exited": return "the session has ended but the thread did not stop (%s)" % end
         if rel != "1": return "the thread stopped but the shared client was not released"
